@@ -488,6 +488,8 @@ class CallMixin:
         if short == "set":
             return [("val", st.alloc("set", {"__kind__": "set", "items": tuple(self.concrete_items(args[0], st)) if args else ()}), st)]
         if short == "dict":
+            if len(args) == 1 and not kwargs and isinstance(args[0], Ref) and st.get(args[0]).get("__kind__") in self.container_models:
+                return self.container_models[st.get(args[0])["__kind__"]].method(self, st, args[0], "copy", [], {})  # dict(m): a snapshot with the same content
             if not args and not kwargs:
                 return [("val", st.alloc("dict", {"__kind__": "dict", "e": {}, "open": False}), st)]
             if len(args) == 1 and not kwargs and isinstance(args[0], Ref) and st.get(args[0]).get("__kind__") == "dict" and not st.get(args[0])["open"]:
